@@ -66,6 +66,36 @@ Proof.
   destruct (unit_eqb (v_unit x) Eternity); [discriminate|reflexivity].
 Qed.
 
+Lemma norm_dated x p : unit_eqb (v_unit x) Eternity = false -> norm x p = p.
+Proof. intro H. unfold norm. now rewrite H. Qed.
+
+(** Eternal variables, if any, are leaves: they carry no formula (and at least one spiral
+    loop is allowed, so that a leaf is never cut).  Implied by [no_eternal]. *)
+Definition leafy (sy : sys) : Prop := forall v x, nth_error (vars sy) v = Some x ->
+  unit_eqb (v_unit x) Eternity = true -> v_formulas x = [] /\ 1 <= max_loops sy.
+
+(** keys that do not belong to an eternal variable *)
+Definition dated_keys (sy : sys) (l : list key) : Prop := forall k x, In k l ->
+  nth_error (vars sy) (fst k) = Some x -> unit_eqb (v_unit x) Eternity = false.
+
+Lemma no_eternal_leafy sy : no_eternal sy -> leafy sy.
+Proof.
+  intros H v x Ex Eu. unfold no_eternal in H. rewrite forallb_forall in H.
+  specialize (H x (nth_error_In _ _ Ex)). rewrite Eu in H. discriminate.
+Qed.
+
+Lemma no_eternal_dated sy l : no_eternal sy -> dated_keys sy l.
+Proof.
+  intros H k x _ Ex. unfold no_eternal in H. rewrite forallb_forall in H.
+  specialize (H x (nth_error_In _ _ Ex)). now apply negb_true_iff in H.
+Qed.
+
+Lemma dated_keys_app sy l1 l2 : dated_keys sy l1 -> dated_keys sy l2 -> dated_keys sy (l1 ++ l2).
+Proof. intros H1 H2 k x Hk. apply in_app_or in Hk as [Hk|Hk]; eauto. Qed.
+
+Lemma dated_keys_incl sy l1 l2 : incl l1 l2 -> dated_keys sy l2 -> dated_keys sy l1.
+Proof. intros Hi H k x Hk. eauto. Qed.
+
 (** * Marks are top segments *)
 
 Lemma prev_periods_app v a b : prev_periods v (a ++ b) = prev_periods v a ++ prev_periods v b.
@@ -114,6 +144,17 @@ Lemma not_cycle_not_in v p stk :
   existsb (period_eqb p) (prev_periods v stk) = false -> ~ In (v, p) stk.
 Proof.
   intros H Hin. rewrite (existsb_period_in p _ (prev_periods_in v p _ Hin)) in H. discriminate.
+Qed.
+
+(** a leaf is never below another frame of its variable *)
+Lemma prev_nil_eternal sy v x stk : nth_error (vars sy) v = Some x ->
+  unit_eqb (v_unit x) Eternity = true -> dated_keys sy stk -> prev_periods v stk = [].
+Proof.
+  intros Ex Eu. unfold prev_periods. induction stk as [|k r IH]; intro Hd; cbn [filter map]; auto.
+  destruct (Nat.eqb_spec (fst k) v) as [E|E].
+  - exfalso. assert (Hk : In k (k :: r)) by now left. rewrite <- E in Ex.
+    specialize (Hd k x Hk Ex). congruence.
+  - apply IH. intros k' y Hk'. apply Hd. now right.
 Qed.
 
 (** * The stack is restored; [invalid] only grows while the stack is not empty *)
@@ -187,10 +228,13 @@ End Frame.
 Section Tr.
   Variable sy : sys.
   Variable pp : popu.
-  Hypothesis Hne : no_eternal sy.
+  Hypothesis Hlf : leafy sy.
 
-  (** every frame of the stack is absent from the cache *)
-  Definition Qs (s : st) : Prop := forall k, In k (stack s) -> lookup k (cache s) = None.
+  (** every frame of the stack is absent from the cache and belongs to a dated variable;
+      so do the marks *)
+  Definition Qs (s : st) : Prop :=
+    (forall k, In k (stack s) -> lookup k (cache s) = None) /\
+    dated_keys sy (stack s) /\ dated_keys sy (invalid s).
 
   (** from [s] to a later state [s'] of the same top-level request *)
   Definition Tr (s s' : st) : Prop :=
@@ -213,54 +257,83 @@ Section Tr.
   Lemma body_T (rec : st -> nat -> period -> st * res val) s0 v p stk :
     stack s0 = (v, p) :: stk ->
     (forall k, In k stk -> lookup k (cache s0) = None) ->
+    dated_keys sy stk -> dated_keys sy (invalid s0) ->
     (forall s w q, Inv1 s0 s -> Inv1 s0 (fst (rec s w q))) ->
     let s' := fst (calc_body rec sy pp s0 v p) in
-    stack s' = (v, p) :: stk /\ (forall k, In k stk -> lookup k (cache s') = None) /\ Tr s0 s'.
+    stack s' = (v, p) :: stk /\ (forall k, In k stk -> lookup k (cache s') = None) /\
+    dated_keys sy (invalid s') /\ Tr s0 s'.
   Proof.
-    intros Hst Hq Hrec. unfold calc_body. rewrite Hst. cbn [tl].
+    intros Hst Hq Hds Hdi Hrec. unfold calc_body. rewrite Hst. cbn [tl].
     destruct (nth_error (vars sy) v) as [x|] eqn:Ex; [|cbn; repeat split; auto].
     destruct (check_consistency x p) as [u|]; [|cbn; repeat split; auto].
-    unfold get_array. rewrite (norm_id sy v x p Hne Ex).
+    unfold get_array.
     assert (Hmark : forall ks, (forall k, In k ks -> In k (invalid s0) \/ lookup k (cache s0) = None) ->
               Tr s0 (add_invalid ks s0)).
     { intros ks H. split; [auto|]. cbn [add_invalid invalid]. intros k Hk.
       apply in_app_or in Hk as [Hk|Hk]; auto. }
-    destruct (if v_neutral x then Some (default_array pp x) else lookup (v, p) (cache s0)) as [a|] eqn:Eg.
+    destruct (if v_neutral x then Some (default_array pp x) else lookup (v, norm x p) (cache s0)) as [a|] eqn:Eg.
     { destruct (existsb (key_eqb (v, p)) (invalid s0)) eqn:Et; cbn [fst]; [|repeat split; auto].
-      split; [exact Hst|]. split; [exact Hq|]. apply Hmark.
-      intros k Hk. destruct Hk as [<-|Hk]; [left; now apply existsb_key_in|right; auto]. }
+      apply existsb_key_in in Et.
+      split; [exact Hst|]. split; [exact Hq|]. split.
+      - cbn [add_invalid invalid]. apply dated_keys_app; [|exact Hdi].
+        intros k y [<-|Hk]; [now apply Hdi|now apply Hds].
+      - apply Hmark. intros k [<-|Hk]; [now left|right; auto]. }
     destruct (v_neutral x); [discriminate|].
-    assert (Hq0 : Qs s0).
+    destruct (unit_eqb (v_unit x) Eternity) eqn:Eu.
+    { (* an eternal leaf: no frame of it below, no cut, no formula; the default is stored *)
+      destruct (Hlf v x Ex Eu) as [Hnf HL].
+      rewrite (prev_nil_eternal sy v x stk Ex Eu Hds). cbn [existsb length].
+      destruct (Nat.leb_spec (max_loops sy) 0) as [HL0|_]; [lia|].
+      assert (Ef : formula_at x p = Ok None) by (unfold formula_at; now rewrite Hnf).
+      rewrite Ef. cbn [fst]. rewrite stack_put_in_cache', invalid_put_in_cache.
+      split; [exact Hst|]. split; [|split; [exact Hdi|]].
+      - intros k Hk. rewrite lookup_put_in_cache. destruct (v_nostore x); auto.
+        destruct (key_eqb k (v, norm x p)) eqn:E; auto.
+        apply key_eqb_iff in E. subst k. specialize (Hds _ x Hk Ex). congruence.
+      - split.
+        + intros k c Hk. rewrite lookup_put_in_cache. destruct (v_nostore x); auto.
+          destruct (key_eqb k (v, norm x p)) eqn:E; auto.
+          apply key_eqb_iff in E. subst k. congruence.
+        + intros k Hk. rewrite invalid_put_in_cache in Hk. auto. }
+    rewrite (norm_dated x p Eu) in Eg.
+    assert (Hq0 : forall k, In k (stack s0) -> lookup k (cache s0) = None).
     { intros k Hk. rewrite Hst in Hk. destruct Hk as [<-|Hk]; auto. }
+    assert (Hd0 : dated_keys sy (stack s0)).
+    { rewrite Hst. intros k y [<-|Hk] Hy; [cbn [fst] in Hy; congruence|eauto]. }
     destruct (existsb (period_eqb p) (prev_periods v stk)) eqn:Ecy; [cbn; repeat split; auto|].
     apply not_cycle_not_in in Ecy.
     destruct (Nat.leb _ _).
-    { cbn [fst]. split; [exact Hst|]. split; [exact Hq|]. apply Hmark.
-      intros k Hk. right. apply Hq0. rewrite Hst. eapply spiral_marks_incl; eauto. }
+    { cbn [fst]. split; [exact Hst|]. split; [exact Hq|]. split.
+      - cbn [add_invalid invalid]. apply dated_keys_app; [|exact Hdi].
+        eapply dated_keys_incl; [apply spiral_marks_incl|]. rewrite <- Hst. exact Hd0.
+      - apply Hmark. intros k Hk. right. apply Hq0. rewrite Hst. eapply spiral_marks_incl; eauto. }
     assert (Hput : forall s1 b, Inv1 s0 s1 ->
               let s' := put_in_cache x v p b s1 in
-              stack s' = (v, p) :: stk /\ (forall k, In k stk -> lookup k (cache s') = None) /\ Tr s0 s').
-    { intros s1 b (I1 & I2 & I3). cbn zeta. rewrite stack_put_in_cache'. split; [congruence|].
+              stack s' = (v, p) :: stk /\ (forall k, In k stk -> lookup k (cache s') = None) /\
+              dated_keys sy (invalid s') /\ Tr s0 s').
+    { intros s1 b (I1 & (I2 & I2b & I2c) & I3). cbn zeta.
+      rewrite stack_put_in_cache', invalid_put_in_cache. split; [congruence|].
       assert (Hkf : lookup (v, p) (cache s1) = None).
       { apply I2. rewrite I1, Hst. now left. }
-      split.
-      - intros k Hk. rewrite lookup_put_in_cache, (norm_id sy v x p Hne Ex).
+      split; [|split; [exact I2c|]].
+      - intros k Hk. rewrite lookup_put_in_cache, (norm_dated x p Eu).
         destruct (v_nostore x). { apply I2. rewrite I1, Hst. now right. }
         destruct (key_eqb k (v, p)) eqn:E.
         + apply key_eqb_iff in E. subst k. contradiction.
         + apply I2. rewrite I1, Hst. now right.
       - apply (Tr_trans s0 s1); [exact I3|]. split.
-        + intros k c Hk. rewrite lookup_put_in_cache, (norm_id sy v x p Hne Ex).
+        + intros k c Hk. rewrite lookup_put_in_cache, (norm_dated x p Eu).
           destruct (v_nostore x); auto.
           destruct (key_eqb k (v, p)) eqn:E; auto.
           apply key_eqb_iff in E. subst k. congruence.
         + intros k Hk. rewrite invalid_put_in_cache in Hk. auto. }
-    assert (HI0 : Inv1 s0 s0) by (split; [reflexivity|split; [exact Hq0|apply Tr_refl]]).
+    assert (HI0 : Inv1 s0 s0).
+    { split; [reflexivity|]. split; [|apply Tr_refl]. repeat split; auto. }
     destruct (formula_at x p) as [[e|]|]; [| |cbn; repeat split; auto].
     - pose proof (eval_pres sy pp rec (Inv1 s0) Hrec e (v_ent x) p s0 HI0) as H.
       destruct (eval rec sy pp (v_ent x) s0 p e) as [s1 r]. cbn [fst] in *.
       destruct r; cbn [fst]; [now apply Hput|].
-      destruct H as (I1 & I2 & I3). split; [congruence|]. split; [|exact I3].
+      destruct H as (I1 & (I2 & I2b & I2c) & I3). split; [congruence|]. split; [|split; [exact I2c|exact I3]].
       intros k Hk. apply I2. rewrite I1, Hst. now right.
     - cbn [fst]. now apply Hput.
   Qed.
@@ -269,7 +342,8 @@ Section Tr.
     Qs (fst (calc fuel sy pp s v p)) /\ Tr s (fst (calc fuel sy pp s v p)).
   Proof.
     induction fuel as [|f IH]; intros s v p HQ Hs; cbn [calc]; [split; [exact HQ|apply Tr_refl]|].
-    pose proof (body_T (calc f sy pp) (push (v, p) s) v p (stack s) eq_refl HQ) as Hb.
+    destruct HQ as (HQ1 & HQ2 & HQ3).
+    pose proof (body_T (calc f sy pp) (push (v, p) s) v p (stack s) eq_refl HQ1 HQ2 HQ3) as Hb.
     cbn zeta in Hb.
     assert (Hrec : forall s' w q, Inv1 (push (v, p) s) s' -> Inv1 (push (v, p) s) (fst (calc f sy pp s' w q))).
     { intros s' w q (I1 & I2 & I3).
@@ -278,10 +352,12 @@ Section Tr.
       split; [now rewrite calc_stack'|]. split; [exact J1|]. eapply Tr_trans; eauto. }
     specialize (Hb Hrec).
     destruct (calc_body (calc f sy pp) sy pp (push (v, p) s) v p) as [s1 r]. cbn [fst] in *.
-    destruct Hb as (B1 & B2 & B3). cbn [push stack] in B1.
+    destruct Hb as (B1 & B2 & B3 & B4). cbn [push stack] in B1.
     assert (Hp : stack (pop s1) = stack s) by (unfold pop; cbn [stack]; now rewrite B1).
     rewrite purge_nonempty by congruence.
-    split; [|exact B3].
-    intros k Hk. rewrite Hp in Hk. unfold pop; cbn [cache]. auto.
+    split; [|exact B4]. split; [|split].
+    - intros k Hk. rewrite Hp in Hk. unfold pop; cbn [cache]. auto.
+    - rewrite Hp. exact HQ2.
+    - exact B3.
   Qed.
 End Tr.
